@@ -1,4 +1,5 @@
 import ImathVerif.Model.StringTable
+import ImathVerif.Spec.PyList
 /-!
 `StringTableT`: the index <-> string bijection is an invariant of `intern` (C19).
 -/
@@ -190,5 +191,57 @@ theorem setitemString_repr {a : ArrState} {strs : List String} (r : Repr a strs)
         rw [← hint.1]
         unfold insert
         split <;> simp
+
+
+/-! ## array-to-array assignment across two tables -/
+
+theorem setFromArray_repr (lb : List String) :
+    ∀ (pairs : List (Nat × Nat)) (a : ArrState) (la : List String) (rd : Nat → ArrState → Option String),
+      Repr a la → a.table.length + pairs.length ≤ indexMax →
+      (∀ p ∈ pairs, p.1 < la.length ∧ p.2 < lb.length) →
+      (∀ i (hi : i < lb.length) a', rd i a' = some lb[i]) →
+      ∃ a', setFromArray a rd pairs = some a' ∧
+        Repr a' (pairs.foldl (fun l p => l.set p.1 (lb[p.2]!)) la) := by
+  intro pairs
+  induction pairs with
+  | nil => intro a la rd r _ _ _; exact ⟨a, rfl, r⟩
+  | cons p rest ih =>
+    intro a la rd r hsz hin hrd
+    obtain ⟨hp1, hp2⟩ := hin p (by simp)
+    obtain ⟨a1, h1, r1, hg⟩ := setitemString_repr r (by simp at hsz; omega) hp1 lb[p.2]
+    obtain ⟨a2, h2, r2⟩ := ih a1 (la.set p.1 lb[p.2]) rd r1 (by simp at hsz ⊢; omega)
+      (fun q hq => by have := hin q (by simp [hq]); simpa using this) hrd
+    refine ⟨a2, ?_, ?_⟩
+    · obtain ⟨p1, p2⟩ := p
+      simp only [setFromArray, hrd p2 hp2 a, h1, h2]
+    · have : lb[p.2]! = lb[p.2] := by simp [getElem!_def, List.getElem?_eq_getElem hp2]
+      simp only [List.foldl_cons, this]
+      exact r2
+
+/-- **`a[pos] = b` re-interns across the two tables correctly**: if `a` represents `la` and ANOTHER array `b`
+    represents `lb`, then after the assignment `a` represents `la` with `la[pos[i]] = lb[i]` — whatever the two tables'
+    interning orders are (the index stored in `b` is never used in `a`'s table) -/
+theorem setVecString_repr {a b : ArrState} {la lb : List String} (ra : Repr a la) (rb : Repr b lb) (pos : List Nat)
+    (hsz : a.table.length + pos.length ≤ indexMax) (hpos : ∀ p ∈ pos, p < la.length) (hlen : pos.length = lb.length) :
+    ∃ a', setVecString a b pos = some a' ∧ Repr a' (PyList.setZip la pos lb) := by
+  have hpairs : ∀ q ∈ pos.zip (List.range pos.length), q.1 < la.length ∧ q.2 < lb.length := by
+    intro q hq
+    obtain ⟨h1, h2⟩ := List.of_mem_zip hq
+    exact ⟨hpos _ h1, by have := List.mem_range.1 h2; omega⟩
+  obtain ⟨a', h1, r1⟩ := setFromArray_repr lb (pos.zip (List.range pos.length)) a la (fun i _ => getitemString b i) ra
+    (by simpa using hsz) hpairs (fun i hi _ => rb.elems i hi)
+  refine ⟨a', h1, ?_⟩
+  have : (pos.zip (List.range pos.length)).foldl (fun l p => l.set p.1 (lb[p.2]!)) la = PyList.setZip la pos lb := by
+    unfold PyList.setZip
+    have hz : pos.zip lb = (pos.zip (List.range pos.length)).map (fun p => (p.1, lb[p.2]!)) := by
+      apply List.ext_getElem
+      · simp [hlen]
+      · intro i h1' h2'
+        simp at h1' h2'
+        have hil : i < lb.length := by omega
+        simp [getElem!_def, List.getElem?_eq_getElem hil]
+    rw [hz, List.foldl_map]
+  rw [← this]
+  exact r1
 
 end ImathVerif.StringTable
